@@ -1,12 +1,15 @@
 """C12 Builder calls never panic, failed calls change nothing, structure is enforced."""
 from ..core import Anchor
 from ..tree import mir_name, where
-from . import builder, builderx
+from . import builder, buildeval
 
 EXPLANATION = (
-    "Every public Builder method (1175) is abstractly interpreted in every reachable selection state "
-    "(selected_function in {none, valid}, selected_block in {none, valid, stale}); unknown data conditions fork, calls to other "
-    "Builder methods are inlined. The reachable state set is closed from Builder::new() under all methods. R-INV: no path "
+    "Every public Builder method (1175) is evaluated in every reachable selection state (selected_function in {none, valid, stale}, "
+    "selected_block in {none, valid, stale}), each state being represented by concrete builders over modules of up to two functions "
+    "with up to two blocks, with every combination of index-like arguments (Option<usize> in {None, 0, 1, 9}, the four insert points) "
+    "and the other optional arguments absent / present; calls to other Builder methods are inlined; methods whose bodies differ only "
+    "in opcode, operand kinds and parameter names share one evaluation. The reachable state set is closed from Builder::new() under "
+    "all methods. R-INV: no path "
     "panics (index with a stale selection, expect on Err) and the invariant `block selected => function selected and index valid "
     "for it` holds in every reachable state; R-GUARD: the guard table of the statement; R-ATOMIC: no path returning Err has "
     "mutated the module's instructions. Insertion offsets are assumed within the block as the statement says.")
@@ -25,7 +28,7 @@ def sname(s):
 
 def run(ctx, chk):
     raw = ctx.raw
-    bx = builderx.BuilderX(ctx)
+    bx = buildeval.BuilderE(ctx)
     ms = {m["name"]: m for m in builder.methods(ctx)}
     entry = sorted(n for n, f in bx.methods.items() if f["vis"] == "pub" and n not in OUTSIDE)
     chk.assumptions += ["insertion offsets passed to insert_* lie within the selected block (property statement)",
@@ -78,7 +81,7 @@ def run(ctx, chk):
     npaths = 0
 
     def good_state(st):
-        return not (st[1] is not None and st[0] is None) and st[1] != "stale"
+        return not (st[1] is not None and st[0] is None) and st[1] != "stale" and st[0] != "stale"
     # transitions that break the invariant (root causes); consequences (panics in bad states) are attached as examples
     breakers = {}
     for (name, st), ps in results.items():
